@@ -437,7 +437,7 @@ def unit_bounded_terminators(eng=None):
 def gen_pair(rnd):
     """one program in two spellings that must assemble identically"""
     import random
-    regs = [("r0", "%0", "R0"), ("r1", "%1", "R1"), ("r5", "%5", "R5"), ("sp", "r6", "SP"), ("pc", "r7", "PC"), ("r6", "sp", "%6")]
+    regs = [("r0", "%0", "R0"), ("r1", "%1", "R1"), ("r5", "%5", "R5"), ("sp", "r6", "SP"), ("pc", "r7", "PC"), ("r6", "sp", "%6"), ("sp", "Sp", "sP"), ("pc", "Pc", "pC"), ("r3", "R3", "%3")]
     syn = [("bcc", "bhis"), ("bcs", "blo"), ("ccc", "clnzvc"), ("trap", "sys"), ("halt", "hlt"), ("ret", "return")]
     a, b = [], []
     labels = ["start", "Loop", "data_1"]
